@@ -354,10 +354,13 @@ def case_unit(unit):
                     bad('timeout-had-effect', sc, 'state changed although the '
                         'call reported failure %r' % (res,))
         # --- lock released before BEGIN attempt k -----------------------
-        if needs_lock and effective_retry:
-            slow = [('release', None, 3, 50, 31)] if (
-                kind in ('fanout', 'django')
-                and label in ('clear', 'evict')) else []
+        sharded_bulk = kind in ('fanout', 'django') and label in (
+            'clear', 'evict')
+        if needs_lock and (effective_retry or sharded_bulk):
+            # sharded bulk removals keep trying a busy shard whatever the
+            # retry flag; 'slow' lets each failed attempt take 31 virtual
+            # seconds (a shard that stays locked for more than a minute)
+            slow = [('release', None, 3, 50, 31)] if sharded_bulk else []
             for sc in [('release', None, 1), ('release', None, 2)] + slow:
                 k = sc[2]
                 r = one_run(kind, settings, label, init, fn, retry, sc)
